@@ -5,7 +5,10 @@ import (
 	"fmt"
 	"net/http"
 	"reflect"
+	"regexp"
+	"strconv"
 	"strings"
+	"time"
 
 	"verif/oas"
 )
@@ -536,7 +539,15 @@ func (c *Ctx) checkPathParams(in, opKey, template string, segs []string, tr *tra
 	}
 }
 
-// classifyText classifies an arbitrary text for a kind by the lexeme rules.
+// classifyText classifies an arbitrary text for a kind: table lexemes first,
+// otherwise by the lexical grammar of the type (JSON number grammar, RFC 3339)
+// and its range.
+var (
+	intRe   = regexp.MustCompile(`^-?(0|[1-9][0-9]*)$`)
+	numRe   = regexp.MustCompile(`^-?(0|[1-9][0-9]*)(\.[0-9]+)?([eE][+-]?[0-9]+)?$`)
+	rfc3339 = regexp.MustCompile(`^[0-9]{4}-[0-9]{2}-[0-9]{2}T[0-9]{2}:[0-9]{2}:[0-9]{2}(\.[0-9]+)?(Z|[+-][0-9]{2}:[0-9]{2})$`)
+)
+
 func classifyText(kind, text string) *Lexeme {
 	for _, lx := range Lexemes(kind) {
 		if lx.Text == text {
@@ -546,26 +557,44 @@ func classifyText(kind, text string) *Lexeme {
 	}
 	switch kind {
 	case "integer", "int32", "int64":
-		if z := bi(text); z != nil && !strings.HasPrefix(text, "+") && (text == "0" || !strings.HasPrefix(strings.TrimPrefix(text, "-"), "0")) {
-			lim := bi("9223372036854775807")
+		if intRe.MatchString(text) && text != "-0" {
+			z := bi(text)
+			lo, hi := bi("-9223372036854775808"), bi("9223372036854775807")
 			if kind == "int32" {
-				lim = bi("2147483647")
+				lo, hi = bi("-2147483648"), bi("2147483647")
 			}
-			if z.CmpAbs(lim) <= 0 {
+			if z.Cmp(lo) >= 0 && z.Cmp(hi) <= 0 {
 				return &Lexeme{text, "accept", z}
 			}
 		}
 		return &Lexeme{text, "reject", nil}
 	case "number", "double", "float":
-		if z := bi(text); z != nil && len(text) < 7 && !strings.HasPrefix(text, "+") {
-			f, _ := z.Float64()
+		if numRe.MatchString(text) {
+			bits := 64
+			if kind == "float" {
+				bits = 32
+			}
+			f, err := strconv.ParseFloat(text, bits)
+			if err != nil {
+				return &Lexeme{text, "reject", nil} // out of range
+			}
+			if f == 0 && strings.Trim(text, "-0.eE+") != "" && !strings.ContainsAny(text, "eE") {
+				return &Lexeme{text, "dontcare", nil} // underflow to zero
+			}
 			if kind == "float" {
 				return &Lexeme{text, "accept", float32(f)}
 			}
 			return &Lexeme{text, "accept", f}
 		}
 		return &Lexeme{text, "reject", nil}
-	case "boolean", "date-time":
+	case "boolean":
+		return &Lexeme{text, "reject", nil}
+	case "date-time":
+		if rfc3339.MatchString(text) {
+			if t, err := time.Parse(time.RFC3339Nano, text); err == nil {
+				return &Lexeme{text, "accept", t}
+			}
+		}
 		return &Lexeme{text, "reject", nil}
 	}
 	return &Lexeme{text, "accept", text}
